@@ -41,6 +41,12 @@ CLAIMED = {
         "note": "Trusted: z3, symx, BlindNP (argmax -> arbitrary index), HybridNdi (map_coordinates on a symbolic mesh -> opaque array of the mesh's shape), _upsampled_dft output shape (conformance-tested), real numpy/scipy for concrete landscape data, exact reals for float32. Not covered: finite scores/NaN from compiled kernels (division safety is in C07).",
         "ref": "DESIGN.md §4 C05",
     },
+    "C11": {
+        "text": "Molecules methods executed on symbolic unit quaternions / positions / shifts: x,y,z = images of (0,0,1),(0,1,0),(1,0,0), orthonormal, z = cross_zyx(x,y); world rotations compose on the left and keep positions; internal rotations compose on the right; translate_internal adds R.s; closed forms of linear_transform and of inv=True (exact inverse); copy=True never touches the original; "
+                "affine_matrix and local_coordinates = pos(/scale) + R(k - centre); quat/matrix/Euler representation round trips (Euler as an uninterpreted inverse pair + translate_euler involution on all 54 sequences). All polynomial identities modulo |q|=1, decided by nlsat.",
+        "note": "Trusted: z3, symx, SymRotation contract. Bounds: axes/coords with an arbitrary unit quaternion; rotation-vector operations with 4 (quick) / 30 exact rational molecule orientations. NOT covered (stated): Molecules.from_axes / axes_to_rotator incl. anti-parallel and mixed batches (sqrt/arctan2 chains not encoded) - that clause of the property is not decided by this check.",
+        "ref": "DESIGN.md §4 C11",
+    },
     "C14": {
         "text": "Placement rule decided for symbolic position, scale, template sides (both parities) and rotation matrix: tomogram voxel t of the pasted fragment reads template coordinate (shape-1)/2 + R^-1(t - pos/scale); "
                 "_prep_slices decided over unbounded integers for every clipping case (pairing t<->t-start, exactly the overlap kept, non-overlapping fragments dropped); simulate/simulate_2d executed on a recording canvas: one += per molecule from its component's template at its own slice, 2-D = z-sum.",
